@@ -32,7 +32,7 @@ Qed.
 Theorem run_tape_bind {A B} (m : prog A) (k : A -> prog B) : forall tape,
   run_tape (bind m k) tape = then_run (run_tape m tape) (fun a rest => run_tape (k a) rest).
 Proof.
-  induction m as [a|n f IH|n f IH|q f IH|x y f IH|f IH|ws f IH|cs f IH|lo hi f IH]; intros tape;
+  induction m as [a|n f IH|n f IH|q f IH|x y f IH|f IH|ws f IH|cs f IH|lo hi f IH|f IH|sure q f IH]; intros tape;
     cbn [bind run_tape then_run].
   - reflexivity.
   - destruct (unif64 n tape) as [[[i rest]|]|c]; cbn [then_run]; auto.
@@ -52,6 +52,12 @@ Proof.
     destruct (cmp_tol (u52_to_unit vp * mw) w); cbn [then_run]; auto.
   - destruct tape as [|[v|v] rest]; cbn [then_run]; auto.
     destruct (cmp_tol (u53_to_unit v) lo), (cmp_tol (u53_to_unit v) hi); cbn [then_run]; auto.
+  - destruct tape as [|[v|v] rest]; cbn [then_run]; auto.
+  - destruct (Qle_bool 1 q).
+    + destruct (sure || Qle_bool (1 + tolden) q); cbn [then_run]; auto.
+    + destruct (negb sure && Qlt_bool (1 - tolden) q); cbn [then_run]; auto.
+      destruct tape as [|[v|v] rest]; cbn [then_run]; auto.
+      destruct (cmp_tol (u64_to_unit v) q); cbn [then_run]; auto.
 Qed.
 
 (* ---------------- pre-drawn swap decisions (parallel_perform_swaps) ---------------- *)
